@@ -138,7 +138,7 @@ def key_of(body, place):
 
 
 class Intervals:
-    def __init__(self, body, field_inv=None, param_inv=None):
+    def __init__(self, body, field_inv=None, param_inv=None, param_len=None):
         self.body = body
         self.prog = body.prog
         self.cfg = body.cfg
@@ -148,7 +148,10 @@ class Intervals:
         self.results = {}      # block -> state before terminator
         self.loop_heads = set(self.cfg.loops().keys())
         self.param_len = {}    # key -> interval of the length of slice-typed parameters (from all call sites)
-        self._infer_param_lens()
+        if param_len is not None:
+            self.param_len = dict(param_len)
+        else:
+            self._infer_param_lens()
         self._run()
 
     def _infer_param_lens(self):
@@ -973,6 +976,8 @@ class Intervals:
         for l in range(1, body.arg_count + 1):
             if l in self.param_inv:
                 init.set(("l", l), self.param_inv[l])
+        for k, v in self.param_len.items():
+            init.set(("len", k), v)
         self.block_in = {0: init}
         visits = {}
         work = [0]
@@ -1082,10 +1087,56 @@ def check_field_invariants(prog):
 
 # ---------------------------------------------------------------------------- discharge of panic sites
 
+def discharge_in_contexts(site, region):
+    """Second attempt for functions with slice parameters: analyse the function once per call site inside
+    `region` (a dict did -> blocks) with the argument lengths seen there. Sound for claims about paths
+    through the region. Returns (proved, reason)."""
+    body = site.body
+    prog = body.prog
+    if body.kind == "closure":
+        return False, "closure"
+    sl = [l for l in range(1, body.arg_count + 1) if body.local_ty(l).k == "ref" and body.local_ty(l).deref().k in ("slice", "str")]
+    ints = [l for l in range(1, body.arg_count + 1) if body.local_ty(l).int_range() is not None]
+    if not sl and not ints:
+        return False, "no slice or integer parameter"
+    callers = [(c, bb, k) for (c, bb, k) in prog.cg.callers.get(body.did, []) if c in region and bb in region[c]]
+    if not callers or any(k != "direct" for (_c, _bb, k) in callers):
+        return False, "called indirectly inside the region"
+    reasons = []
+    for (c, bb, k) in callers:
+        cb = prog.by_did[c]
+        an = analyse(cb)
+        st = an.state_at(bb)
+        if st is None:
+            continue
+        t = cb.blocks[bb]["term"]
+        pl = {}
+        pi = {}
+        for l in sl:
+            if l - 1 < len(t["args"]):
+                pl[(l, ())] = an.len_itv(st, t["args"][l - 1])
+        for l in ints:
+            if l - 1 < len(t["args"]):
+                v = an.op_itv(st, t["args"][l - 1])
+                if v is not None:
+                    pi[l] = v
+        an2 = Intervals(body, FIELD_INVARIANTS, param_inv=pi, param_len=pl)
+        ok, why = _discharge_with(site, an2)
+        if not ok:
+            return False, "in the context of %s: %s" % (cb.path, why)
+        reasons.append("%s: %s" % (cb.name, why))
+    return True, "per call site in region: " + "; ".join(reasons[:4])
+
+
 def discharge(site, field_inv=None):
     """Try to prove that the panic site cannot fire. Returns (proved, reason)."""
     body = site.body
     an = analyse(body)
+    return _discharge_with(site, an)
+
+
+def _discharge_with(site, an):
+    body = site.body
     st = an.state_at(site.bi)
     if st is None:
         return True, "block is unreachable under the analysis (dead edge)"
@@ -1110,6 +1161,9 @@ def discharge(site, field_inv=None):
         cls = site.kind[4:]
         args = t["args"]
         if cls == "index" and len(args) == 2:
+            g = _cursor_prefix_guard(body, t)
+            if g:
+                return True, g
             base = an.len_itv(st, args[0])
             rb = an.range_bounds(st, args[1])
             if rb is not None:
@@ -1203,3 +1257,41 @@ def msgbuffer_model_ok(prog):
         ok = ok and len(idx) == 1 and field_of(b, idx[0]["args"][0]) == "buffer"
         res.append(("%s=buffer[start..end]" % name, ok, b))
     return res
+
+
+def _cursor_prefix_guard(body, t):
+    """buf[0..pos] / buf[..pos] where pos = cursor.position() and buf = cursor.into_inner()/get_ref() of the
+    same std::io::Cursor local, which is never repositioned in this body: a Cursor only advances by the number
+    of bytes actually read or written, so position() <= len of its buffer."""
+    from .mirutil import origin
+    args = t["args"]
+    rng = origin(body, args[1])
+    if rng[0] != "rvalue" or rng[2]["rv"]["k"] != "aggregate":
+        return None
+    rv = rng[2]["rv"]
+    adt = rv.get("adt", "")
+    if adt.endswith("ops::Range"):
+        if op_const(rv["ops"][0]) != 0:
+            return None
+        end = rv["ops"][1]
+    elif adt.endswith("ops::RangeTo"):
+        end = rv["ops"][0]
+    else:
+        return None
+    eo = origin(body, end)
+    if eo[0] != "call" or not callee_is(eo[2], "io::Cursor::position"):
+        return None
+    bo = origin(body, args[0])
+    if bo[0] != "call" or not callee_is(bo[2], "io::Cursor::into_inner", "io::Cursor::get_ref", "io::Cursor::get_mut"):
+        return None
+    c1 = root_place(body, op_place(eo[2]["args"][0])) if op_place(eo[2]["args"][0]) else None
+    c2 = root_place(body, op_place(bo[2]["args"][0])) if op_place(bo[2]["args"][0]) else None
+    if c1 is None or c2 is None or c1["l"] != c2["l"] or c1.get("p") or c2.get("p"):
+        return None
+    cur = c1["l"]
+    for bi, tt in body.calls():
+        if callee_is(tt, "io::Cursor::set_position", "io::Seek::seek", "io::Seek::rewind", "io::Seek::seek_relative") and tt["args"]:
+            r = root_place(body, op_place(tt["args"][0])) if op_place(tt["args"][0]) else None
+            if r is not None and r["l"] == cur:
+                return None
+    return "prefix up to Cursor::position() of the cursor's own buffer; the cursor is never repositioned"
